@@ -21,7 +21,7 @@ def grid(idx, tier, reps_q, reps_t):
     else:
         g["vfLen2"] = {"all": [0]}
     return g
-def units(prefix, harness, desc, covers, reps_q=[0, 1, 2], reps_t=[0, 1, 2, 3, 11], maxpaths=None, extra=None):
+def units(prefix, harness, desc, covers, reps_q=[0, 1, 2], reps_t=[0, 1, 2, 11], maxpaths=None, extra=None):
     us = []
     for i, (name, nw, ulen, ulen2) in enumerate(shapes):
         # narrow values: all element counts; one full-width field at a time: element counts <= 1 (quick) / <= 2 (thorough)
@@ -33,9 +33,9 @@ def units(prefix, harness, desc, covers, reps_q=[0, 1, 2], reps_t=[0, 1, 2, 3, 1
         if extra: u.update(extra)
         us.append(u)
         if nw > 0:
-            g2 = grid(i, None, [r for r in reps_q if r <= 1], [r for r in reps_t if r <= 2])
+            g2 = grid(i, None, [r for r in reps_q if r <= 1], [r for r in reps_t if r <= 1])
             g2["vfWide"] = {"quick": [w for w in wides(nw, 'quick') if w], "thorough": [w for w in wides(nw, 'thorough') if w]}
-            g2["vfLen"] = {"quick": [1] if ulen else [0], "thorough": [0, 1, 2] if ulen else [0]}
+            g2["vfLen"] = {"quick": [1] if ulen else [0], "thorough": [0, 1] if ulen else [0]}
             u2 = dict(u, name="%s-%s-wide" % (prefix, name), desc=desc + " (shape %s, one full-width integer field at a time)" % name, grid=g2)
             us.append(u2)
     return us
@@ -47,7 +47,7 @@ common_assume = [
     "exploration strategy: results of proto.sizeOfVarint are case-split eagerly (every feasible value is explored; no value is assumed away)",
 ]
 c03 = {"property": "C03", "title": "proto: Unmarshal(Marshal(v)) == v and Size(v) == len(Marshal(v))", "level": "model_checking", "assumptions": common_assume,
-       "outside_claim": ["types outside the catalogue (gogo custom types, Message implementations)", "element counts other than those listed (0..2, thorough 3 and 11)", "floats: compared by bit pattern"],
+       "outside_claim": ["types outside the catalogue (gogo custom types, Message implementations)", "element counts other than those listed (0..2, thorough also 11: growth of a repeated field past its initial capacity of 10)", "floats: compared by bit pattern"],
        "units": units("H03", "vfH_c03_shape", "Marshal never fails, Size==len(Marshal), deterministic, round trip", ["done"])}
 c03["units"].insert(0, {"name": "H03-varint64", "desc": "encodeVarint/sizeOfVarint/decodeVarint, zig-zag, LE32/64 on every 64-bit value", "pkg": "./proto", "overlay": ["harness/proto"], "harness": "vfH_c07_scalar", "covers": ["done"]})
 c03["units"].append({"name": "H03-entry", "desc": "length prefixes at the 1-byte/2-byte varint boundary: map entry with string value, map entry with message value, repeated message element, payload length sweeping 116..132", "pkg": "./proto", "overlay": ["harness/proto"], "harness": "vfH_c03_entry",
@@ -79,7 +79,10 @@ c07["units"].append({"name": "H07-parselen", "desc": "Parse/Scan on [tag][varint
 c07["units"] += simple_units("H07-free", "vfH_c07_free", "every byte string of the length into the shape's target: no panic, allocation bounded, accepted input is well-formed", ["rejected"],
                              {"vfLen": {"quick": "0..3", "thorough": "0..4"}, "vfLen2": {"all": [0]}})
 c07["units"] += simple_units("H07-unknown", "vfH_c07_unknown", "an undeclared well-formed field (number base+65536*k, k symbolic up to 2^29; varint/fixed64/varlen/fixed32) inserted at every top-level boundary of a valid encoding: decoded value unchanged, Scan enumerates exactly the fields", ["done"],
-                             {"vfLen": {"quick": [1], "thorough": [0, 1]}, "vfMode": {"quick": [0, 2], "thorough": [0, 1, 2, 5]}, "vfDeep": {"quick": [0], "thorough": [0, 1]}})
+                             {"vfLen": {"quick": [1], "thorough": [0, 1]}, "vfMode": {"quick": [0, 2], "thorough": [0, 1, 2, 5]}, "vfDeep": {"all": [0]}})
+for idx, nm in ((0, "scalars"), (4, "nested"), (7, "maps")):
+    c07["units"].append({"name": "H07-unknown-deep-" + nm, "desc": "the same with every base field number 1..top+2, k up to 8190 (numbers up to 2^29) and full-width varint payloads (thorough tier; shape %s)" % nm, "pkg": "./proto", "overlay": ["harness/proto"], "harness": "vfH_c07_unknown",
+                         "grid": {"vfShape": {"all": [idx]}, "vfWide": {"all": [0]}, "vfLen": {"all": [1]}, "vfLen2": {"all": [1] if nm == "maps" else [0]}, "vfMode": {"quick": [0], "thorough": [0, 2]}, "vfDeep": {"quick": [0], "thorough": [1]}}, "covers": ["done"], "timeout_ms": 30000, "concret": ["github.com/segmentio/encoding/proto.sizeOfVarint"], "split": {"all": 6}})
 c07["outside_claim"] = ["free byte strings longer than the bounds", "types outside the catalogue", "unknown fields inserted inside embedded messages and map entries (top-level boundaries only)", "group wire types 3/4 (rejected by the decoder)"]
 for fn, spec in (("C03", c03), ("C16", c16), ("C07", c07)):
     json.dump(spec, open(os.path.join(root, "spec", fn + ".json"), "w"), indent=1)
